@@ -4,5 +4,6 @@ CONSTANTS
   Fixed = TRUE
   AllowForeignClose = FALSE
   AllowCancel = TRUE
+  AllowStall = FALSE
 INVARIANT EmitHist
 CHECK_DEADLOCK FALSE
